@@ -96,3 +96,4 @@ require (
 )
 
 replace sigs.k8s.io/karpenter => /repo
+replace k8s.io/client-go => ./overlay/gen/client-go
